@@ -2,19 +2,21 @@
    the text/range operations with replace, filter, filter_not and regex_extract, at top level
    and inside map:{...}. *)
 From SP Require Import Model.Syntax Model.Scanner Proofs.PegP Proofs.SyntaxP Proofs.ArgP Proofs.NumP
-  Proofs.RangeSynP Proofs.OpSynP Proofs.RegexSynP Proofs.BlockSynP.
+  Proofs.RangeSynP Proofs.OpSynP Proofs.RegexSynP Proofs.RawArgP Proofs.BlockSynP.
 Local Open Scope N_scope.
 
 (* ---- inside map:{...} -------------------------------------------------------------------- *)
 Inductive reads_inner : op -> str -> str -> Prop :=
 | ri_simple o t rest : spells_simple o t -> op_stops rest -> reads_inner o t rest
-| ri_regex o t rest : spells_regex o t -> ctx_map o rest -> reads_inner o t rest.
+| ri_regex o t rest : spells_regex o t -> ctx_map o rest -> reads_inner o t rest
+| ri_raw o t rest : spells_raw o t -> op_stops rest -> reads_inner o t rest.
 
 Lemma reads_inner_sound o txt rest : reads_inner o txt rest ->
   exists k, run r_map_inner_operation false (txt ++ rest) = Some (txt, [Node (Some R_map_inner_operation) txt [k]], rest)
             /\ parse_map_inner_operation k = Ok o.
 Proof.
-  intros [o' t r' Hs Hst | o' t r' Hs Hc]; [exact (inner_reads_spelled _ _ _ Hs Hst) | exact (inner_reads_regex _ _ _ Hs Hc)].
+  intros [o' t r' Hs Hst | o' t r' Hs Hc | o' t r' Hs Hst];
+    [exact (inner_reads_spelled _ _ _ Hs Hst) | exact (inner_reads_regex _ _ _ Hs Hc) | exact (inner_reads_raw _ _ _ Hs Hst)].
 Qed.
 
 Lemma run_map_full it items rest : chain reads_inner (it :: items) rest ->
@@ -47,6 +49,7 @@ Qed.
 Inductive reads_top : op -> str -> str -> Prop :=
 | rt_plain o t rest : spells o t -> op_stops rest -> reads_top o t rest
 | rt_regex o t rest : spells_regex o t -> ctx_top o rest -> reads_top o t rest
+| rt_raw o t rest : spells_raw o t -> op_stops rest -> reads_top o t rest
 | rt_map items rest : items <> [] -> chain reads_inner items rest -> op_stops rest ->
     reads_top (Map (ops_of items)) (map_text items) rest.
 
@@ -54,9 +57,10 @@ Lemma reads_top_sound o txt rest : reads_top o txt rest ->
   exists k, run r_operation false (txt ++ rest) = Some (txt, [Node (Some R_operation) txt [k]], rest)
             /\ parse_operation k = Ok o.
 Proof.
-  intros [o' t r' Hs Hst | o' t r' Hs Hc | items r' Hne Hch Hst].
+  intros [o' t r' Hs Hst | o' t r' Hs Hc | o' t r' Hs Hst | items r' Hne Hch Hst].
   - exact (operation_reads _ _ _ Hs Hst).
   - exact (operation_reads_regex _ _ _ Hs Hc).
+  - exact (operation_reads_raw _ _ _ Hs Hst).
   - destruct items as [|it items]; [congruence|].
     destruct (run_map_full it items r' Hch) as (k & Hk & Hc). exists k. split; [|exact Hc].
     unfold r_operation. rewrite run_rule_normal. cbn [run].
@@ -68,9 +72,11 @@ Qed.
 
 Lemma reads_top_head o txt rest : reads_top o txt rest -> exists c t, txt = c :: t /\ N.eqb 33 c = false.
 Proof.
-  intros [o' t r' Hs Hst | o' t r' Hs Hc | items r' Hne Hch Hst].
+  intros [o' t r' Hs Hst | o' t r' Hs Hc | o' t r' Hs Hst | items r' Hne Hch Hst].
   - exact (spells_head _ _ Hs).
   - destruct Hs; eexists; eexists; split; reflexivity.
+  - destruct Hs as [kw mk a Hin Hu]. cbn [kw_raw_ops In] in Hin.
+    destruct Hin as [E|[E|[E|[E|[E|[]]]]]]; injection E as <- <-; eexists; eexists; split; reflexivity.
   - eexists; eexists; split; reflexivity.
 Qed.
 
@@ -119,10 +125,12 @@ Qed.
    so the next operation must not be written in the digit shorthand. *)
 Inductive written_inner : op -> str -> Prop :=
 | wi_simple o t : spells_simple o t -> written_inner o t
-| wi_regex o t : spells_regex o t -> written_inner o t.
+| wi_regex o t : spells_regex o t -> written_inner o t
+| wi_raw o t : spells_raw o t -> written_inner o t.
 Inductive written : op -> str -> Prop :=
 | w_plain o t : spells o t -> written o t
 | w_regex o t : spells_regex o t -> written o t
+| w_raw o t : spells_raw o t -> written o t
 | w_map items : items <> [] -> Forall (fun it => written_inner (fst it) (snd it)) items ->
     written (Map (ops_of items)) (map_text items).
 Fixpoint followers_ok (items : list item) : Prop :=
@@ -134,8 +142,18 @@ Fixpoint followers_ok (items : list item) : Prop :=
   | [] => True
   end.
 
+Lemma spells_raw_kw o t : spells_raw o t -> kw_led t.
+Proof.
+  intros H r. destruct H as [kw mk a Hin Hu]. cbn [kw_raw_ops In] in Hin.
+  destruct Hin as [E|[E|[E|[E|[E|[]]]]]]; injection E as <- <-; eexists; reflexivity.
+Qed.
+Lemma needs_kw_raw o t : spells_raw o t -> needs_kw o = false.
+Proof.
+  intros H. destruct H as [kw mk a Hin Hu]. cbn [kw_raw_ops In] in Hin.
+  destruct Hin as [E|[E|[E|[E|[E|[]]]]]]; injection E as <- <-; reflexivity.
+Qed.
 Lemma written_inner_kw o t : written_inner o t -> kw_led t.
-Proof. intros [o' t' H | o' t' H]; [exact (spells_simple_kw _ _ H) | exact (spells_regex_kw _ _ H)]. Qed.
+Proof. intros [o' t' H | o' t' H | o' t' H]; [exact (spells_simple_kw _ _ H) | exact (spells_regex_kw _ _ H) | exact (spells_raw_kw _ _ H)]. Qed.
 
 Lemma tail_kw_stops (more : list item) tail : (forall it2 rest2, more = it2 :: rest2 -> kw_led (snd it2)) ->
   (more = [] -> tail = []) -> ktop_stops (pipe_tail_text (texts more) ++ 125 :: tail).
@@ -149,7 +167,7 @@ Lemma inner_chain items : Forall (fun it => written_inner (fst it) (snd it)) ite
   forall rest, op_stops rest -> chain reads_inner items rest.
 Proof.
   induction 1 as [|it items Hit Hrest IH]; intros rest Hst; [exact I|]. cbn [chain]. split; [|apply IH; exact Hst].
-  destruct it as [o0 t0]. cbn [fst snd] in *. destruct Hit as [o t Hs | o t Hs]; [apply ri_simple; [exact Hs | apply pipe_tail_stops]|].
+  destruct it as [o0 t0]. cbn [fst snd] in *. destruct Hit as [o t Hs | o t Hs | o t Hs]; [apply ri_simple; [exact Hs | apply pipe_tail_stops] | | apply ri_raw; [exact Hs | apply pipe_tail_stops]].
   apply ri_regex; [exact Hs|]. unfold ctx_map. destruct (needs_kw o); [|apply pipe_tail_stops].
   destruct items as [|it2 more].
   - left. cbn. destruct Hst as (c & t' & -> & Hc). eexists. split; [reflexivity|]. right. eauto.
@@ -161,7 +179,7 @@ Theorem written_chain items : Forall (fun it => written (fst it) (snd it)) items
   chain reads_top items [].
 Proof.
   induction 1 as [|it items Hit Hrest IH]; intros Hf; [exact I|]. cbn [chain]. split.
-  - destruct it as [o0 t0]. cbn [fst snd] in *. destruct Hit as [o t Hs | o t Hs | its Hne Hall].
+  - destruct it as [o0 t0]. cbn [fst snd] in *. destruct Hit as [o t Hs | o t Hs | o t Hs | its Hne Hall]; [| | apply rt_raw; [exact Hs | apply pipe_tail_stops] |].
     + apply rt_plain; [exact Hs | apply pipe_tail_stops].
     + apply rt_regex; [exact Hs|]. unfold ctx_top. destruct (needs_kw o) eqn:En; [|apply pipe_tail_stops].
       destruct items as [|it2 more]; [left; reflexivity|].
@@ -253,8 +271,15 @@ Proof.
     apply neutral_cons; [reflexivity|]. apply neutral_print_N.
 Qed.
 
+Lemma neutral_spells_raw o t : spells_raw o t -> neutral t.
+Proof.
+  intros H. destruct H as [kw mk a Hin Hu]. cbn [kw_raw_ops In] in Hin.
+  destruct Hin as [E|[E|[E|[E|[E|[]]]]]]; injection E as <- <-;
+    unfold kw_append, kw_prepend, kw_surround, kw_quote, kw_join; cbn [app];
+    repeat (apply neutral_cons; [reflexivity|]); apply neutral_regex_units; exact Hu.
+Qed.
 Lemma neutral_written_inner o t : written_inner o t -> replace_balanced o -> neutral t.
-Proof. intros [o' t' H | o' t' H] Hb; [exact (neutral_spells_simple _ _ H) | exact (neutral_spells_regex _ _ H Hb)]. Qed.
+Proof. intros [o' t' H | o' t' H | o' t' H] Hb; [exact (neutral_spells_simple _ _ H) | exact (neutral_spells_regex _ _ H Hb) | exact (neutral_spells_raw _ _ H)]. Qed.
 
 Definition balanced_item (it : item) : Prop :=
   match fst it with
@@ -264,9 +289,10 @@ Definition balanced_item (it : item) : Prop :=
 
 Lemma neutral_written o t : written o t -> balanced_item (o, t) -> neutral t.
 Proof.
-  intros H Hb. destruct H as [o t Hs | o t Hs | items Hne Hall].
+  intros H Hb. destruct H as [o t Hs | o t Hs | o t Hs | items Hne Hall].
   - exact (neutral_spells _ _ Hs).
   - apply (neutral_spells_regex _ _ Hs). destruct Hs; exact Hb || exact I.
+  - exact (neutral_spells_raw _ _ Hs).
   - unfold balanced_item in Hb. cbn [fst] in Hb. unfold map_text, kw_map. cbn [app].
     do 4 (apply neutral_cons; [reflexivity|]). apply neutral_braced. apply neutral_pipe_text.
     apply Forall_forall. intros tx Hin. apply in_map_iff in Hin as (it & <- & Hit).
